@@ -498,6 +498,9 @@ fn parse_rules(schema: &str) -> Vec<RuleLine> {
               }
               j += 1;
             }
+            // `&( k => v, ... )` enumerates the *values* of the inline group as type choices: the key guards nothing
+            let choice_from_group = cs[..i].iter().rev().find(|ch| !ch.is_whitespace()) == Some(&'&');
+            let keyed = keyed && !choice_from_group;
             paren_stack.push(keyed);
             if keyed {
               depth += 1;
